@@ -122,7 +122,7 @@ def main():
             if mt2 != it2:
                 disagreements.append({"what": "key-log bytes %r" % bytes(raw)[:200], "model": mt2[:160], "impl": it2[:160]})
     # ---- 2. the same secrets supplied in different ways give the identical export
-    n = 14 if ck.tier == "quick" else 200
+    n = 10 if ck.tier == "quick" else 200
     n_model = 4 if ck.tier == "quick" else 30
     home = os.getcwd()
     other = tempfile.mkdtemp(prefix="verif_cwd_")
